@@ -26,6 +26,9 @@ pub struct Plan {
     pub liveness: bool,
     /// max message length
     pub max_len: usize,
+    /// flood mode: hundreds of tiny messages per tick so that thousands of message ids are in
+    /// flight / buffered between two receive calls (id-distance thresholds like 64, 256, 1024, 4096)
+    pub flood: bool,
 }
 
 #[derive(Default, Debug, Clone)]
@@ -166,6 +169,9 @@ pub fn run(ctx: &Ctx, out: &mut Outcome, cfg: SimCfg, plan: &Plan, run_seed: u64
                 if r.chance(1, 12) {
                     n += r.range(2, 12); // bursts
                 }
+                if plan.flood {
+                    n = r.range(100, 450);
+                }
                 for _ in 0..n {
                     if *per.get(&(c, d)).unwrap_or(&0) >= plan.max_msgs {
                         break;
@@ -175,7 +181,11 @@ pub fn run(ctx: &Ctx, out: &mut Outcome, cfg: SimCfg, plan: &Plan, run_seed: u64
                         break;
                     }
                     let (ch, _kind, max_mem) = *r.pick(&chans);
-                    let len = payload::pick_len(&mut r, plan.max_len.min(max_mem / 2), plan.allow_large);
+                    let len = if plan.flood && !r.chance(1, 200) {
+                        r.urange(0, 40)
+                    } else {
+                        payload::pick_len(&mut r, plan.max_len.min(max_mem / 2), plan.allow_large)
+                    };
                     if !sim.within_window(c, d, ch, len) {
                         out.count("submit_deferred_window");
                         continue;
